@@ -91,6 +91,7 @@ func rulesC11(c *Ctx) {
 	sort.Strings(opNames)
 
 	runeWidthC11(c, mr, me)
+	parseFlagsC11(c, me)
 	// ---- C11.ops ----
 	c.Rule("C11.ops", "matchRegex, evaluated by constant propagation with the node's Op bound to every regexp/syntax operator, can report success only for OpLiteral, OpCapture, OpConcat, OpCharClass and OpAlternate — operators whose language is finite when their parts' are; repetition, any-char, empty-match and anchor operators always fail")
 	finite := map[string]bool{"OpLiteral": true, "OpCapture": true, "OpConcat": true, "OpCharClass": true, "OpAlternate": true}
@@ -437,6 +438,61 @@ func connectiveC11(c *Ctx) {
 		got = map[string]choice{"else": got["else"], "!~": g}
 		want = map[string]choice{"!~": {"!=", "AND"}, "else": {"=", "OR"}}
 	}
+	// the connective kept in a variable outside the callback and assigned on
+	// only one of the two branches: the other branch uses what an earlier
+	// condition left there
+	for _, fv := range lit.FreeVars {
+		pt, ok := fv.Type().(*types.Pointer)
+		if !ok || !types.Identical(pt.Elem(), tt.Type) {
+			continue
+		}
+		var storeBlocks []*ssa.BasicBlock
+		loaded := false
+		for _, b := range lit.Blocks {
+			for _, in := range b.Instrs {
+				switch x := in.(type) {
+				case *ssa.Store:
+					if x.Addr == ssa.Value(fv) {
+						storeBlocks = append(storeBlocks, b)
+					}
+				case *ssa.UnOp:
+					if x.X == ssa.Value(fv) {
+						loaded = true
+					}
+				}
+			}
+		}
+		if !loaded || len(storeBlocks) == 0 {
+			continue
+		}
+		// a branch of an operator test that reaches the load without a store
+		for _, b := range lit.Blocks {
+			ifi, ok := b.Instrs[len(b.Instrs)-1].(*ssa.If)
+			if !ok {
+				continue
+			}
+			bo, ok := ifi.Cond.(*ssa.BinOp)
+			if !ok || bo.Op != token.EQL {
+				continue
+			}
+			if _, fld, ok := fieldRef(bo.X); !ok || fld != "Op" {
+				continue
+			}
+			stores := 0
+			for _, sc := range b.Succs {
+				for _, sb := range storeBlocks {
+					if sb == sc || sc.Dominates(sb) && len(sc.Preds) == 1 {
+						stores++
+						break
+					}
+				}
+			}
+			if stores == 1 {
+				c.Bad("C11.connective", "RewriteRegexConditions$lit: connective variable", ifi.Pos(), "the connective lives outside the callback and only one of the =~ / !~ branches assigns it: after a !~ condition a later =~ condition is expanded with AND (or the reverse), and matches nothing")
+				return
+			}
+		}
+	}
 	for k, w := range want {
 		key := "RewriteRegexConditions$lit: branch " + k
 		if got[k].newOp == "" && got[k].concat == "" {
@@ -675,4 +731,41 @@ func runeWidthC11(c *Ctx, fns ...*ssa.Function) {
 	}
 	c.OK("C11.runewidth", "conversions examined", 0, fmt.Sprintf("%d conversions in matchRegex/matchExactRegex", n))
 	c.Floor("C11.runewidth", n, 1)
+}
+
+// parseFlagsC11: the pattern is read the way regexp.Compile reads it.
+func parseFlagsC11(c *Ctx, me *ssa.Function) {
+	p := c.P
+	c.Rule("C11.parseflags", "matchExactRegex parses the pattern with syntax.Perl, the flags regexp.Compile uses: the literals are derived from the same reading of the pattern as the compiled regex that stays in the tree if the rewrite does not apply (another flag set changes what a negated class or `.` contains, or how `(?i)` and `\\pL` are read)")
+	var perl int64 = -1
+	for _, imp := range p.Pkg.Imports {
+		if imp.PkgPath == "regexp/syntax" {
+			if k, ok := imp.Types.Scope().Lookup("Perl").(*types.Const); ok {
+				perl, _ = constant.Int64Val(constant.ToInt(k.Val()))
+			}
+		}
+	}
+	n := 0
+	for _, b := range me.Blocks {
+		for _, in := range b.Instrs {
+			call, ok := in.(*ssa.Call)
+			if !ok || call.Call.StaticCallee() == nil || call.Call.StaticCallee().String() != "regexp/syntax.Parse" {
+				continue
+			}
+			n++
+			key := fmt.Sprintf("matchExactRegex: syntax.Parse #%d", n)
+			k, ok := call.Call.Args[1].(*ssa.Const)
+			if !ok || k.Value == nil || perl < 0 {
+				c.Unk("C11.parseflags", key, call.Pos(), "flags are not a constant")
+				continue
+			}
+			v, _ := constant.Int64Val(constant.ToInt(k.Value))
+			if v == perl {
+				c.OK("C11.parseflags", key, call.Pos(), "syntax.Perl")
+			} else {
+				c.Bad("C11.parseflags", key, call.Pos(), fmt.Sprintf("flags %d, regexp.Compile uses syntax.Perl (%d): the set of strings the literals stand for is computed for another language than the regex matches", v, perl))
+			}
+		}
+	}
+	c.Floor("C11.parseflags", n, 1)
 }
